@@ -82,6 +82,10 @@ func (r *Recomposer) registerComposer(rt reflect.Type, fun RecomposeFunc) (*comp
 		rt = rt.Elem()
 	}
 	full := rt.PkgPath() + "/" + rt.Name()
+	if rt.Name() == "" {
+		// Anonymous types share the empty name: each is kept under its definition.
+		full = rt.String()
+	}
 	// TBD could loosen this up and allow any type as long as a function is provided.
 	if rt.Kind() != reflect.Struct {
 		return nil, fmt.Errorf("only structs can be recomposed. %s is not a struct type", rt)
